@@ -60,7 +60,9 @@ func (g *GenCfg) iriID(r *RNG) string {
 }
 
 var langTags = []string{"en", "fr", "de", "ro"}
-var texts = []string{"hello", "Ana are mere", "<p>some <b>html</b></p>", "x", "two words", "ünïcode ✓"}
+var texts = []string{"hello", "Ana are mere", "<p>some <b>html</b></p>", "x", "two words", "ünïcode ✓",
+	// a paragraph: longer than any buffer, preview or cut-off a helper might apply (64, 128 bytes)
+	"A longer paragraph of text, the kind a post usually holds: it runs past sixty-four bytes, past one hundred and twenty-eight bytes too, and ends with a full stop."}
 var mimeTypes = []string{"text/html", "text/plain", "image/png"}
 
 func (g *GenCfg) genNLV(r *RNG) []interface{} {
